@@ -65,5 +65,9 @@ SpecRoundTrip == HasNonFiniteDoc \/
       r == ParseJson(d[2])
   IN d[1] /\ r.ok /\ Denotes(r.v, Doc)
 
-Export == PrintT(<<"GEN", ToJson([root |-> root, opt |-> opt])>>)
+RtPol == [mm |-> "throw", ov |-> "throw", arch |-> "json", dev |-> ""]
+\* named deviation Dev_JsonBomlessUtf16Undetectable: a BOM-less UTF-16/32 text whose first characters are not ASCII cannot be detected on load
+Undetectable == ~HasNonFiniteDoc /\ ~JsonDetectable(Render(Doc, [ws |-> IF opt.fmt THEN 2 ELSE 0, esc |-> 0, order |-> 0], 0), opt.enc, opt.bom)
+Export == PrintT(<<"GEN", ToJson([root |-> root, opt |-> opt, exp |-> Exec(Doc, root, RtPol), expsave |-> IF HasNonFiniteDoc THEN "throws" ELSE "ok",
+                                 expdev |-> IF Undetectable THEN <<[dev |-> "Dev_JsonBomlessUtf16Undetectable", exp |-> [ev |-> <<>>, exc |-> <<"ser", "Parsing error">>]]>> ELSE <<>>])>>)
 =============================================================================
